@@ -18,12 +18,6 @@ use std::sync::{Arc, Mutex};
 use sweep::*;
 
 #[derive(Clone, Debug, Serialize, Deserialize)]
-pub enum Body {
-    H1(H1),
-    H2(H2),
-}
-
-#[derive(Clone, Debug, Serialize, Deserialize)]
 pub struct Job {
     pub body: Body,
     pub bound: usize,
@@ -40,6 +34,8 @@ pub struct JobResult {
     pub max_points: usize,
     pub complete: bool,
     pub classes: BTreeSet<String>,
+    /// one event trace per outcome class (the first execution that reached it), for parreal
+    pub traces: Vec<(String, Vec<Ev>)>,
     pub max_in_flight: usize,
     /// (clause, why, schedule as task ids, event log)
     pub violation: Option<(String, String, Vec<usize>, Vec<Ev>)>,
@@ -52,31 +48,6 @@ fn shuttle_config() -> shuttle::Config {
     c.max_steps = shuttle::MaxSteps::FailAfter(100_000);
     c.silence_warnings = true;
     c
-}
-
-fn run_body(b: &Body, x: &ExecRef) {
-    match b {
-        Body::H1(c) => run_h1(c, x),
-        Body::H2(c) => run_h2(c, x),
-    }
-}
-
-/// outcome class of a finished execution: the consumer-visible items
-fn class_of(x: &ExecRef) -> (String, usize) {
-    let e = x.lock().unwrap_or_else(|p| p.into_inner());
-    let items: Vec<String> = e
-        .log
-        .iter()
-        .filter_map(|ev| match ev {
-            Ev::NextSet { k, .. } => Some(format!("s{}", k)),
-            Ev::NextErr { k, .. } => Some(format!("e{}", k)),
-            Ev::NextEnd { .. } => Some("end".into()),
-            Ev::RecRecv { id, .. } => Some(id.clone()),
-            Ev::Return { what } => Some(format!("ret:{}", what)),
-            _ => None,
-        })
-        .collect();
-    (items.join(","), e.in_flight_max)
 }
 
 /// Run `f` on a fresh OS thread. A violation makes shuttle abandon suspended coroutines (possibly in
@@ -95,7 +66,7 @@ pub fn enumerate_prefixes(job: &Job, depth: usize) -> Vec<Vec<usize>> {
 fn enumerate_prefixes_here(job: &Job, depth: usize) -> Vec<Vec<usize>> {
     let (sch, sh) = BoundedDfs::new(job.bound, u64::MAX);
     sh.lock().unwrap().depth_limit = Some(depth);
-    let x: ExecRef = Arc::new(Mutex::new(Exec::default()));
+    let x: ExecRef = new_exec();
     let runner = shuttle::Runner::new(sch, shuttle_config());
     let body = job.body.clone();
     let out: Arc<Mutex<Vec<Vec<usize>>>> = Arc::new(Mutex::new(vec![]));
@@ -125,18 +96,28 @@ pub fn explore(job: &Job) -> JobResult {
 fn explore_here(job: &Job) -> JobResult {
     let (sch, sh) = BoundedDfs::new(job.bound, job.max_executions);
     sh.lock().unwrap().prefix = job.prefix.clone();
-    let x: ExecRef = Arc::new(Mutex::new(Exec::default()));
+    let x: ExecRef = new_exec();
     let classes: Arc<Mutex<(BTreeSet<String>, usize)>> = Arc::new(Mutex::new((BTreeSet::new(), 0)));
+    let traces: Arc<Mutex<Vec<(String, Vec<Ev>)>>> = Arc::new(Mutex::new(vec![]));
     let runner = shuttle::Runner::new(sch, shuttle_config());
     let body = job.body.clone();
-    let (x2, cl2) = (x.clone(), classes.clone());
+    let (x2, cl2, tr2) = (x.clone(), classes.clone(), traces.clone());
     let r = catch_unwind(AssertUnwindSafe(|| {
         runner.run(move || {
             run_body(&body, &x2);
             let (c, infl) = class_of(&x2);
             let mut g = cl2.lock().unwrap();
-            if g.0.len() < 5000 {
-                g.0.insert(c);
+            let fresh = g.0.len() < 5000 && g.0.insert(c.clone());
+            {
+                // keep one trace per class, preferring a turnstile-deterministic one
+                let mut t = tr2.lock().unwrap();
+                let log = x2.lock().log.clone();
+                let det = turnstile_deterministic(&log);
+                match t.iter().position(|(cl, _)| *cl == c) {
+                    None if fresh && t.len() < 8 => t.push((c, log)),
+                    Some(i) if det && !turnstile_deterministic(&t[i].1) => t[i].1 = log,
+                    _ => {}
+                }
             }
             g.1 = g.1.max(infl);
         })
@@ -152,13 +133,14 @@ fn explore_here(job: &Job) -> JobResult {
         max_points: s.max_points.max(s.step),
         complete: s.done,
         classes: class_set,
+        traces: traces.lock().unwrap_or_else(|p| p.into_inner()).clone(),
         max_in_flight: infl,
         violation: None,
         machinery: s.divergence.clone(),
     };
     if let Err(p) = r {
         let msg = if let Some(s) = p.downcast_ref::<String>() { s.clone() } else if let Some(s) = p.downcast_ref::<&str>() { s.to_string() } else { "<panic>".into() };
-        let e = x.lock().unwrap_or_else(|p| p.into_inner());
+        let e = x.lock();
         let (clause, why) = match &e.violation {
             Some((c, w)) => (c.clone(), w.clone()),
             None => {
@@ -184,12 +166,12 @@ pub fn replay_schedule(body: &Body, tasks: &[usize]) -> (Option<(String, String)
 fn replay_schedule_here(body: &Body, tasks: &[usize]) -> (Option<(String, String)>, Vec<Ev>, Option<String>) {
     let diverged = Arc::new(Mutex::new(None));
     let sch = Replay { tasks: tasks.to_vec(), pos: 0, started: false, diverged: diverged.clone() };
-    let x: ExecRef = Arc::new(Mutex::new(Exec::default()));
+    let x: ExecRef = new_exec();
     let runner = shuttle::Runner::new(sch, shuttle_config());
     let b = body.clone();
     let x2 = x.clone();
     let r = catch_unwind(AssertUnwindSafe(|| runner.run(move || run_body(&b, &x2))));
-    let e = x.lock().unwrap_or_else(|p| p.into_inner());
+    let e = x.lock();
     let v = match r {
         Ok(_) => None,
         Err(p) => {
@@ -534,12 +516,25 @@ fn main() {
     jobs.sort_by_key(|j| (std::cmp::Reverse(j.bound), format!("{:?}", j.body), j.prefix.clone()));
     let partition_counters = pre.counters;
     let prop2 = prop.clone();
+    let all_traces: Mutex<std::collections::BTreeMap<(String, String), Vec<Ev>>> = Mutex::new(Default::default());
+    let all_classes: Mutex<std::collections::BTreeMap<String, BTreeSet<String>>> = Mutex::new(Default::default());
     let tot = par_sweep(jobs.len() as u64, 2, |idx, l| {
         let job = &jobs[idx as usize];
         let t0 = std::time::Instant::now();
         let r = explore(job);
         if std::env::var("PARMC_TIMES").is_ok() && t0.elapsed().as_secs_f64() > 3.0 {
             eprintln!("JOBTIME {:.1}s schedules {} {:?}", t0.elapsed().as_secs_f64(), r.schedules, job);
+        }
+        {
+            let key = serde_json::to_string(&job.body).unwrap();
+            let mut t = all_traces.lock().unwrap();
+            for (class, ev) in &r.traces {
+                let e = t.entry((key.clone(), class.clone())).or_insert_with(|| ev.clone());
+                if turnstile_deterministic(ev) && !turnstile_deterministic(e) {
+                    *e = ev.clone();
+                }
+            }
+            all_classes.lock().unwrap().entry(key).or_default().extend(r.classes.iter().cloned());
         }
         l.evals += r.schedules;
         if r.max_points > 20 {
@@ -595,6 +590,15 @@ fn main() {
         }
     });
     DONE.store(true, std::sync::atomic::Ordering::Relaxed);
+    // representative traces (one per configuration and outcome class) for the real-thread replay
+    {
+        let t = all_traces.lock().unwrap();
+        let c = all_classes.lock().unwrap();
+        let list: Vec<serde_json::Value> = t.iter().map(|((body, class), ev)| json!({"body": serde_json::from_str::<serde_json::Value>(body).unwrap(), "class": class, "events": ev, "turnstile_deterministic": turnstile_deterministic(ev) && !plain_out_of_order(body, ev)})).collect();
+        let classes: Vec<serde_json::Value> = c.iter().map(|(body, cl)| json!({"body": serde_json::from_str::<serde_json::Value>(body).unwrap(), "classes": cl})).collect();
+        std::fs::create_dir_all("/verif/.target/par").ok();
+        std::fs::write(format!("/verif/.target/par/traces_{}.json", prop), serde_json::to_string(&json!({"traces": list, "classes": classes})).unwrap()).ok();
+    }
     let mut tot = tot;
     for (k, v) in partition_counters {
         *tot.counters.entry(k).or_insert(0) += v;
@@ -615,6 +619,22 @@ fn main() {
         tot,
     );
     std::process::exit(code);
+}
+
+/// the Default-based per-record functions give the harness no set identity; out-of-order arrival
+/// can then not be classified, so such traces are left to the free runs
+fn plain_out_of_order(body_json: &str, ev: &[Ev]) -> bool {
+    if !body_json.contains("\"plain\":true") {
+        return false;
+    }
+    let work: Vec<&String> = ev.iter().filter_map(|e| if let Ev::RecWork { id, .. } = e { Some(id) } else { None }).collect();
+    let recv: Vec<&String> = ev.iter().filter_map(|e| if let Ev::RecRecv { id, .. } = e { Some(id) } else { None }).collect();
+    let mut sorted = recv.clone();
+    sorted.sort_by_key(|id| work.iter().position(|w| w == id));
+    // file order == order of first processing only for one worker; compare with lexical id order instead
+    let mut lex = recv.clone();
+    lex.sort();
+    recv != lex
 }
 
 fn replay_file(path: &str) -> i32 {
